@@ -15,7 +15,12 @@
                         the statements of Spec/Syntax.v they make, o the same tiles with the CRs of
                         the trivia dropped and every line end written as LF;
      flat_doc d         decided on the tree: every item of the root table is a value, and no inline
-                        table inside these values was written with a dotted key.
+                        table inside these values was written with a dotted key;
+     sec_doc d          decided on the tree: no table of the document was made by dotted keys (hereditarily,
+                        through sub-tables and arrays of tables), and no inline table inside a value either;
+     spelled s (doc_root d)   decided on the tree and the source: for every table that prints a header, the
+                        header as Display prints it ([ key path ] built from the Key objects stored along the
+                        table's path) is the text that stands in the source where the table's span starts.
 
    TARGET (DESIGN.md section 6, C03):
      C03_exact : parse_document s = POk d -> ordered s d = true -> render s d = normalize s
@@ -30,19 +35,25 @@
                          bytes consumed (CRs of the trivia dropped);
      C03_exact_flat      class (a): `key = scalar` lines, comments, blank lines;
      C03_exact_values    class (a) + (b): values may be arrays and inline tables, nested, inline tables
-                         with plain (undotted) keys.
-   NOT COVERED: class (c) documents with [table] / [[array-of-tables]] headers, class (d) dotted keys
-   (`a.b = 1` lines and dotted keys inside inline tables).  For these the text-level half is proved
-   (C03_tiling: normalize s is the normal form of the lines) — what is missing is that Display of the
-   tree prints the sections in source order with the recorded decor.  Examples of both classes are
-   checked by computation below.
+                         with plain (undotted) keys;
+     C03_exact_sections  class (a) + (b) + (c): [table] and [[array of tables]] headers with key paths of any
+                         length, in any order (sub-tables before or after their parents, super-tables
+                         defined later, elements of several arrays interleaved): Display sorts the tables by
+                         the position the parser gave them, which is the source order.  The side condition
+                         is `spelled`: exactly the prefix-consistency of finding F5, stated on the tree.
+   NOT COVERED: class (d) dotted keys — `a.b = 1` lines and dotted keys inside inline tables (sec_doc is
+   false for them).  For these the text-level half is proved (C03_tiling: normalize s is the normal form
+   of the lines); what is missing is Display of the tables that dotted keys make (they print inside
+   their section, all lines of one prefix together: the adjacency condition) and the spelling of shared
+   dotted prefixes.  An example is checked by computation below.
 
    Statements only; proofs in Proofs/Tiling*.v and Proofs/PrintBack*.v. *)
 From TV Require Import Base.Prelude Base.Utf8 Base.Winnow Gen.Consts Spec.Abnf Spec.Lex Spec.Defs Spec.Syntax Spec.Norm.
 From TV Require Import Model.Tree Model.Parse Model.Document Model.Encode.
 From TV Require Import Proofs.LexEquivBase Proofs.TilingDefs Proofs.TilingNormDoc
                        Proofs.PrintBackBase Proofs.PrintBackEnc Proofs.PrintBackKey Proofs.PrintBackValue Proofs.PrintBackDoc
-                       Proofs.PrintBackTop Proofs.PrintBackDespan.
+                       Proofs.PrintBackTop Proofs.PrintBackDespan Proofs.PrintBackEnts Proofs.PrintBackFinal Proofs.PrintBackSecTop.
+From TV Require Proofs.SpansDespanTotal.
 Require Import String Ascii.
 
 (* ---- printing --------------------------------------------------------------------------------------- *)
@@ -112,6 +123,28 @@ Proof.
 Qed.
 Print Assumptions C03_exact_flat.
 
+(* class (a) + (b) + (c): sections *)
+Theorem C03_exact_sections : forall s d,
+  parse_document s = POk d -> sec_doc d = true -> spelled s (doc_root d) = true -> render s d = normalize s.
+Proof. exact render_normalize_sections. Qed.
+Print Assumptions C03_exact_sections.
+
+Theorem C03_exact_sections_printed : forall s d o,
+  parse_document s = POk d -> sec_doc d = true -> spelled s (doc_root d) = true -> print_doc s d = Some o -> o = normalize s.
+Proof. intros s d o Hp Hf Hs Ho. rewrite (print_doc_render s d o Ho). apply render_normalize_sections; assumption. Qed.
+Print Assumptions C03_exact_sections_printed.
+
+(* with C14 (despan never fails on a parsed UTF-8 text, Proofs/SpansDespanTotal.v): what is printed, outright *)
+Theorem C03_exact_sections_total : forall s d,
+  utf8_valid_b s = true -> parse_document s = POk d -> sec_doc d = true -> spelled s (doc_root d) = true ->
+  print_doc s d = Some (normalize s).
+Proof.
+  intros s d Hu Hp Hf Hs. destruct (SpansDespanTotal.despan_total s d Hu Hp) as (r & t & Er & Et).
+  assert (E : print_doc s d = Some (display_document r t)) by (unfold print_doc; rewrite Er, Et; reflexivity).
+  rewrite E. f_equal. rewrite (print_doc_render s d _ E). apply render_normalize_sections; assumption.
+Qed.
+Print Assumptions C03_exact_sections_total.
+
 (* ---- examples ------------------------------------------------------------------------------------------- *)
 Definition txt (s : string) : bytes := List.map byte_of_ascii (list_ascii_of_string s).
 Definition lf : string := String (ascii_of_nat 10) EmptyString.
@@ -150,12 +183,22 @@ Example C03_ex_last_comment :
   prints_normal s = true /\ is_flat s = true /\ normalize s = txt ("a = 1" ++ lf ++ "# end").
 Proof. split; [|split]; vm_compute; reflexivity. Qed.
 
-(* classes (c) and (d), by computation: headers, arrays of tables, sub-tables, dotted keys, spelled
-   consistently and in print order *)
+(* class (c): headers with paths of any length, sub-tables before their parent (`[t.w]` ... `[t]` would also
+   do), arrays of tables whose elements are interleaved with other sections, a super-table defined
+   later (`[ u ]` after `[[ u.v ]]`), a quoted key holding `]`, CRLF, comments between sections: the
+   conditions of C03_exact_sections hold, so the theorem applies; here also by computation *)
 Definition ex_sections : bytes :=
-  txt ("x = 1" ++ cr ++ lf ++ " # c" ++ lf ++ "[ t ] # h" ++ cr ++ lf ++ "y = [ 1, 2 ]" ++ lf ++ "[[ u . v ]]" ++ lf ++ "z = 2" ++ lf
-       ++ "[t.w]" ++ lf ++ "[[ u . v ]]" ++ lf ++ "q.r = 1" ++ lf ++ "q.s = { m.n = 1 }").
-Example C03_ex_sections : prints_normal ex_sections = true /\ is_flat ex_sections = false.
+  txt ("x = 1" ++ cr ++ lf ++ " # c" ++ lf ++ "[ t ] # h" ++ cr ++ lf ++ "y = [ 1, 2 ]" ++ lf ++ "[[ u.v ]]" ++ lf ++ "z = 2" ++ lf
+       ++ "[t.w]" ++ lf ++ "[[ u.v ]]" ++ lf ++ "  # c2" ++ lf ++ "[ u ]" ++ lf ++ "[ " ++ dq ++ "a]b" ++ dq ++ " . c]" ++ lf ++ "k = {a = 1}").
+Definition sections_ok (s : bytes) : bool :=
+  match parse_document s with POk d => sec_doc d && spelled s (doc_root d) | _ => false end.
+Example C03_ex_sections : sections_ok ex_sections = true /\ prints_normal ex_sections = true /\ is_flat ex_sections = false.
+Proof. split; [|split]; vm_compute; reflexivity. Qed.
+
+(* class (d), by computation only: dotted keys, adjacent and spelled consistently *)
+Definition ex_dotted : bytes :=
+  txt ("[t]" ++ lf ++ "q.r = 1" ++ lf ++ "q.s = { m.n = 1 }" ++ lf ++ "p = 2").
+Example C03_ex_dotted : prints_normal ex_dotted = true /\ sections_ok ex_dotted = false.
 Proof. split; vm_compute; reflexivity. Qed.
 
 (* ---- why the side condition of the target statement is needed ---------------------------------------------- *)
@@ -175,6 +218,13 @@ Example C03_ex_respelled_blanks :
   let s := txt ("[ a . b ]" ++ lf ++ "[ a ]" ++ lf) in
   exists d, parse_document s = POk d /\ render s d = txt ("[ a. b ]" ++ lf ++ "[ a ]" ++ lf) /\ normalize s = s.
 Proof. eexists. split; [vm_compute; reflexivity|]. split; vm_compute; reflexivity. Qed.
+
+(* `spelled` is what rules these out: it fails for the document above, and for an array of tables
+   whose second header is spelled differently from the first ([[u.v]] / [[ u.v ]]) *)
+Example C03_ex_spelled_fails :
+  sections_ok (txt ("[ a . b ]" ++ lf ++ "[ a ]" ++ lf)) = false /\ sections_ok (txt ("[[u.v]]" ++ lf ++ "[[ u.v ]]" ++ lf)) = false
+  /\ prints_normal (txt ("[[u.v]]" ++ lf ++ "[[ u.v ]]" ++ lf)) = false.
+Proof. split; [|split]; vm_compute; reflexivity. Qed.
 
 (* dotted keys of one prefix that are not adjacent print together: a.b = 1 / c = 2 / a.d = 3 *)
 Example C03_ex_not_adjacent :
